@@ -86,7 +86,7 @@ EXC = {"ValueError": ".valueError", "IndexError": ".indexError", "TypeError": ".
        "OverflowError": ".overflowError"}
 
 BINOPS = {ast.Add: "pyAdd", ast.Sub: "pySub", ast.Mult: "pyMul", ast.FloorDiv: "pyFloorDiv", ast.Mod: "pyMod",
-          ast.Pow: "pyPow"}
+          ast.Pow: "pyPow", ast.Div: "pyTrueDiv"}
 # in a module that imports NumPy an operand may be an array: the broadcasting versions are emitted there
 NP_BINOPS = {ast.Add: "npAdd", ast.Sub: "npSub", ast.Mult: "npMul"}
 CMPOPS = {ast.Lt: "pyLt", ast.LtE: "pyLe", ast.Gt: "pyGt", ast.GtE: "pyGe", ast.Eq: "pyEq", ast.NotEq: "pyNe"}
@@ -137,7 +137,7 @@ class FunctionTranslator:
                 return True
         if isinstance(node, ast.UnaryOp) and isinstance(node.op, ast.USub):
             return self._fresh_list_expr(node.operand)
-        if isinstance(node, ast.Call) and isinstance(node.func, ast.Attribute) and node.func.attr in ("join", "zfill", "index", "tolist", "astype"):
+        if isinstance(node, ast.Call) and isinstance(node.func, ast.Attribute) and node.func.attr in ("join", "zfill", "index", "tolist", "astype", "copy"):
             return True                      # str / int results are immutable; tolist / astype build new objects
         if isinstance(node, ast.BinOp):
             # `+` and `*` build a new object; with an int/str operand the result is immutable anyway
@@ -340,7 +340,7 @@ class FunctionTranslator:
                 raise Unsupported("%s: non-empty dict literal" % self.name)
             return True, "(.dict [] [])"
         if isinstance(node, ast.ListComp):
-            if len(node.generators) != 1 or node.generators[0].ifs or node.generators[0].is_async:
+            if len(node.generators) != 1 or len(node.generators[0].ifs) > 1 or node.generators[0].is_async:
                 raise Unsupported("%s: comprehension shape" % self.name)
             gen = node.generators[0]
             if not isinstance(gen.target, ast.Name):
@@ -349,6 +349,12 @@ class FunctionTranslator:
             inner = dict(scope)
             inner[gen.target.id] = var
             body = self.rv(node.elt, inner, assigned)
+            if gen.ifs:
+                # [elt for x in it if c]: filter, then map
+                c = self.cond(gen.ifs[0], inner, assigned)
+                _, filtered = self.apply("pyFilter (fun %s => %s)" % (var, c), [gen.iter], scope, assigned)
+                tmpv = self.tmp()
+                return False, "(bnd %s fun %s => (pyMap (fun %s => %s) %s))" % (filtered, tmpv, var, body, tmpv)
             return self.apply("pyMap (fun %s => %s)" % (var, body), [gen.iter], scope, assigned)
         if isinstance(node, ast.Subscript):
             sl = node.slice
@@ -500,6 +506,14 @@ class FunctionTranslator:
             d = kws.pop("dtype", None)
             if d is not None and not (isinstance(d, ast.Name) and d.id == "int"):
                 raise Unsupported("%s: dtype other than int" % self.name)
+
+        def dtype_int_or_bool():
+            d = kws.pop("dtype", None)
+            if d is None or (isinstance(d, ast.Name) and d.id == "int"):
+                return "int"
+            if isinstance(d, ast.Name) and d.id == "bool":
+                return "bool"
+            raise Unsupported("%s: dtype other than int / bool" % self.name)
         if real == "where":
             if len(a) == 1 and not kws:
                 return self.apply("npWhere", a, scope, assigned)
@@ -517,11 +531,13 @@ class FunctionTranslator:
             if len(a) == 1 and not kws:
                 return self.apply("npArray", a, scope, assigned)
         elif real in ("zeros", "ones"):
-            dtype_int_only()
+            dt = dtype_int_or_bool()
             shape = kws.pop("shape", None)
             if shape is not None and not a:
                 a = [shape]
             if len(a) == 1 and not kws:
+                if dt == "bool":
+                    return self.apply("npZerosBool" if real == "zeros" else "npOnesBool", a, scope, assigned)
                 return self.apply("npZeros" if real == "zeros" else "npOnes", a, scope, assigned)
         raise Unsupported("%s: NumPy call %s" % (self.name, real))
 
